@@ -75,6 +75,13 @@ def structure_programs():
         out.append(("tuple-ids", None, relabel(Program("e", If(((Cmp(Id("x"), op, Tup((Id("y"), Id("z")))), R()),), R()), None, ("u",)))))
         out.append(("tuple-ids", None, relabel(Program("e", If(((Cmp(Id("x"), op, Tup((Id("y"),))), R()),), None), None, ("u",)))))
         out.append(("tuple-ids", None, relabel(Program("e", If(((Cmp(Lit(-2), op, Tup((Lit(-2), Lit(-0.5), Id("y")))), R()),), R()), None, ("u",)))))
+    # identifiers ONLY inside nested tuples (none at the top level), at depth 2 and 3, on either side
+    for op in ("in", "not in", "=="):
+        deep2 = Tup((Tup((Lit(0), Lit(0))), Tup((Id("lo"), Lit(10)))))
+        deep3 = Tup((Lit(1), Tup((Lit("s"), Tup((Id("hi"), Lit(-1)))))))
+        out.append(("nested-ids", None, relabel(Program("e", If(((Cmp(Id("pair"), op, deep2), R()),), R()), None, ("u",)))))
+        out.append(("nested-ids", None, relabel(Program("e", If(((Cmp(Id("x"), op, deep3), R()),), None), None, ("u",)))))
+        out.append(("nested-ids", None, relabel(Program("e", If(((Cmp(deep2, op, Tup((deep2, Lit(3)))), R()),), R()), None, ("u",)))))
     out.append(("ids-both-sides", None, relabel(Program("e", If(((Cmp(Id("a"), "<=", Id("b")), R()), (Cmp(Id("b"), "!=", Id("c")), R())), None), None, ("u",)))))
     # no splitters (random draw), no salt / salt only, weights 0 and decimal, single group
     out.append(("no-splitters", None, relabel(Program("e", If(((Cmp(Id("f"), "==", Lit("")), R(2)),), R(1)), None, None))))
